@@ -57,7 +57,6 @@ theorem ref_resolves (els : List Chain) (hv : ∀ t ∈ els, GoodNames t.path)
       split at h
       · -- the relative branch was tried
         split at h
-        · simp at h
         · next steps down hrel =>
           cases h
           -- unfold `_relative_path`
@@ -65,7 +64,6 @@ theorem ref_resolves (els : List Chain) (hv : ∀ t ∈ els, GoodNames t.path)
           simp only at hrel
           split at hrel
           · split at hrel
-            · simp at hrel
             · split at hrel
               · split at hrel
                 · simp at hrel
@@ -77,7 +75,7 @@ theorem ref_resolves (els : List Chain) (hv : ∀ t ∈ els, GoodNames t.path)
                       obtain ⟨h1, h2, h3, h4, h5⟩ := hre
                       have hlast : parts.getLast? = some name := by rw [h5]; exact named_path ht.2
                       rw [endsWith_pathStr parts name hlast] at hrel
-                      simp only [↓reduceIte, Except.ok.injEq, Option.some.injEq, Prod.mk.injEq] at hrel
+                      simp only [↓reduceIte, Option.some.injEq, Prod.mk.injEq] at hrel
                       obtain ⟨rfl, rfl⟩ := hrel
                       simp only [resolve]
                       rw [if_pos h2, h3]
@@ -143,7 +141,6 @@ theorem absolute_otherwise_correct (els : List Chain) (ctx : Option Chain) (name
         · next hfl =>
           have hfl' : fl.lastSaved = false ∧ fl.indexedArg = false := by simpa using hfl
           split at h
-          · simp at h
           · cases h
             refine ⟨?_, ?_, fun _ => rfl⟩
             · rintro (h1 | h1 | h1)
@@ -173,16 +170,34 @@ theorem unknown_or_ambiguous_rejected (els : List Chain) (ctx : Option Chain) (n
 
 /-- conversely: a conversion that succeeds found exactly one element -/
 theorem ok_iff_unique (els : List Chain) (ctx : Option Chain) (name : Str) (fl : Flags) :
-    (∃ cur e, refFor els ctx name fl = .ok cur e) ∨ (∃ s, refFor els ctx name fl = .internal s) →
-      (els.filter (named name)).length = 1 := by
-  intro h
+    (∃ cur e, refFor els ctx name fl = .ok cur e) ↔ (els.filter (named name)).length = 1 := by
   have hu := unknown_or_ambiguous_rejected els ctx name fl
-  rcases Nat.lt_trichotomy (els.filter (named name)).length 1 with hlt | heq | hgt
-  · have := hu.1 (by omega)
-    rcases h with ⟨_, _, h⟩ | ⟨_, h⟩ <;> simp [this] at h
-  · exact heq
-  · have := hu.2 (by omega)
-    rcases h with ⟨_, _, h⟩ | ⟨_, h⟩ <;> simp [this] at h
+  constructor
+  · rintro ⟨_, _, h⟩
+    rcases Nat.lt_trichotomy (els.filter (named name)).length 1 with hlt | heq | hgt
+    · have := hu.1 (by omega); simp [this] at h
+    · exact heq
+    · have := hu.2 (by omega); simp [this] at h
+  · intro h1
+    obtain ⟨t, ht⟩ : ∃ t, els.filter (named name) = [t] := by
+      match hm : els.filter (named name), h1 with
+      | [t], _ => exact ⟨t, rfl⟩
+    have habs : ∃ cur e, (if fl.lastSaved = true then Out.ok false (.lastSaved t.path) else Out.ok false (.abs t.path)) =
+        Out.ok cur e := by
+      cases fl.lastSaved <;> exact ⟨_, _, rfl⟩
+    unfold refFor
+    rw [lookup_setup, ht]
+    simp only
+    cases ctx with
+    | none => exact habs
+    | some c =>
+      simp only
+      by_cases hcond : (!fl.lastSaved && !fl.indexedArg) = true
+      · rw [if_pos hcond]
+        cases relativePath (repeatXpaths els) c t name fl.referenceParent with
+        | none => exact habs
+        | some r => exact ⟨_, _, rfl⟩
+      · rw [if_neg hcond]; exact habs
 
 end Pyxv.Refs
 
@@ -219,9 +234,8 @@ example : (exEls.filter (named "dup".toList)).length = 2 := by decide
 example : refFor exEls none "t".toList {} = .ok false (.abs ["data".toList, "R".toList, "abcde_r2".toList, "t".toList]) := by decide
 /-- the target is the parent repeat of the referrer (F18 shape): the way down names it -/
 example : refFor exEls (some exC) "r3".toList {} = .ok false (.rel 2 ["r3".toList]) := by decide
-/-- the crash site the model keeps partial: `${data}` (the survey root) from a nested context -/
-example : refFor exEls (some exC) "data".toList {} =
-    .internal "IndexError survey.py:_relative_path xpath.split('/')[2]" := by decide
+/-- `${data}` (the survey root) from a nested context: absolute (since fb6aa8f; an IndexError before) -/
+example : refFor exEls (some exC) "data".toList {} = .ok false (.abs ["data".toList]) := by decide
 example : ∀ t ∈ exEls, GoodNames t.path := by decide
 
 end Pyxv.Refs
